@@ -69,6 +69,9 @@ pub fn classify(ctx: &mut Ctx, m: &Movie) -> bool {
         if t.samples.iter().any(|s| s.size == 0) {
             ctx.count("track:zero-size-sample");
         }
+        if t.samples.iter().any(|x| x.size > 65_535) {
+            ctx.count("track:sample>=64KiB");
+        }
         if t.fixed_stsz && n > 0 && t.samples.iter().all(|s| s.size == t.samples[0].size && s.size > 0) {
             ctx.count("track:constant-stsz");
         }
@@ -165,7 +168,7 @@ pub fn run(ctx: &mut Ctx) {
     ctx.stage("random");
     let cases = ctx.pick(100_000u32, 1_000_000u32) / ctx.nshards;
     let maxn = ctx.pick(120usize, 1500usize);
-    ctx.run_prop(gen::table_movie(3, maxn), cases, |ctx, m| oracle(ctx, m));
+    ctx.run_prop(gen::with_big_sample(gen::table_movie(3, maxn), 0.02), cases, |ctx, m| oracle(ctx, m));
 }
 
 pub fn replay(ctx: &mut Ctx, _stage: &str, case: &Value) -> Check {
